@@ -219,6 +219,12 @@ def tensor_binop(it: Any, name: str, a: Any, b: Any, node: Any, inplace: bool) -
     ta, tb = A._term(a), A._term(b)
     opaque = (isinstance(a, TV) and a.kind == "opaque") or (isinstance(b, TV) and b.kind == "opaque") or isinstance(a, Obj) or isinstance(b, Obj)
     both_tensor = isinstance(a, TV) and isinstance(b, TV) and a.kind == "tensor" and b.kind == "tensor"
+    if inplace and isinstance(a, Obj):
+        # `p /= s` on an object (a parameter, a module attribute): the same object, modified in place --
+        # its identity, instance attributes and hooks are kept
+        it.log("inplace", node, target=a, op="i" + name, alias=frozenset(), other=b)
+        a.stores.append(("<i" + name + ">", b))
+        return a
     if opaque and not (isinstance(a, TV) and a.kind == "tensor") and not (isinstance(b, TV) and b.kind == "tensor"):
         return TV(T(name, (ta, tb)), kind="opaque")
     # constant folding on tensor(<scalar>) values
